@@ -199,7 +199,9 @@ def check_translation(ctx):
         if body is None:
             problems.append('no branch for sympy.%s' % kind)
         else:
-            t = [k(util.stmt_key(s)) for s in body]
+            defs = {n_: v_ for n_, v_ in util.single_defs(f).items() if isinstance(v_, ast.Call) and src(v_.func) == 'sympy_recursion'}
+            t = [k(src(util.inline(s, defs))) for s in body
+                 if not (isinstance(s, ast.Assign) and isinstance(s.targets[0], ast.Name) and s.targets[0].id in defs)]
             var = None
             for s in body:
                 if isinstance(s, ast.Assign) and isinstance(s.value, ast.Call) and src(s.value.func).endswith('Term') and not s.value.args:
@@ -292,9 +294,21 @@ def check_translation(ctx):
     h = ctx.fn('types:sympy_species_and_parameters')
     b = h.args.args[0].arg
     th = [k(util.stmt_key(s)) for s in h.body]
-    subs_p = [x.replace(a, 'X') for x in t if '.replace(' in x and 'eaviside' not in x]
-    subs_c = [x.replace(b, 'X') for x in th if '.replace(' in x]
-    ok = subs_p == subs_c and subs_p == ["X=X.replace('^','**')", "X=X.replace('|','_')"] and 'root=sympy.sympify(%s,_clash1)' % b in th
+    def replace_pairs(fn):
+        calls = [c for c in ast.walk(fn) if isinstance(c, ast.Call) and isinstance(c.func, ast.Attribute) and c.func.attr == 'replace'
+                 and len(c.args) == 2 and all(isinstance(x, ast.Constant) for x in c.args)]
+        calls.sort(key=lambda c: (c.end_lineno if hasattr(c, 'end_lineno') else c.lineno, -_depth(c)))
+        return [(c.args[0].value, c.args[1].value) for c in calls if 'eaviside' not in str(c.args[0].value)]
+
+    def _depth(c):
+        d = 0
+        x = c.func.value
+        while isinstance(x, ast.Call) and isinstance(x.func, ast.Attribute):
+            d += 1
+            x = x.func.value
+        return d
+    subs_p, subs_c = replace_pairs(g), replace_pairs(h)
+    ok = sorted(subs_p) == sorted(subs_c) == sorted([('^', '**'), ('|', '_')]) and 'root=sympy.sympify(%s,_clash1)' % b in th
     names = [s for s in h.body if isinstance(s, ast.Assign) and src(s.targets[0]) == 'names']
     ok2 = len(names) == 1 and "str(n)[1:]" in src(names[0].value) and "str(n)[0] == '_'" in src(names[0].value)
     sym = branches.get('Symbol') or []
